@@ -11,8 +11,10 @@ RULE = ("gpio.Peripheral built through its constructor: pins 1-9 (some 10-17; th
         "be refused), input_stages 0-3 (thorough to 5); stimulus = transaction stream (whole-register ascending reads and "
         "writes of Mode/Input/Output/SetClr incl. padding chunks, aborted ones, idle gaps, interleaved foreign accesses, "
         "per-pin distinct data, sticky random pin waveforms), every input bit random each cycle, or an exhaustive sweep "
-        "of mode x output x set/clear code for 1-2 pins; non-trivial = accepted configuration with >= 2 pins, >= 1 "
-        "completed Mode write, >= 1 completed SetClr write and >= 1 protocol-following Input read")
+        "of mode x output x set/clear code for 1-2 pins; plus the Output register (Peripheral.Output) on its own with free "
+        "set/clr inputs (set/clear together with a register write); non-trivial = accepted configuration with >= 2 pins, "
+        ">= 1 completed Mode write, >= 1 completed SetClr write and >= 1 protocol-following Input read (Output register "
+        "alone: >= 2 pins and >= 1 cycle with a write and an effective set/clear together)")
 
 NAMES = ["Mode", "Input", "Output", "SetClr"]
 READABLE = [1, 1, 1, 0]
@@ -225,11 +227,27 @@ def gen_sweep(rnd, cfg):
     return st.rows
 
 
+def gen_outreg(rnd, tier):
+    """Peripheral.Output(pin_count) on its own: element writes and the fields' set / clr inputs all free, so that
+    set/clear arriving together with a register write (never possible through the peripheral's bus) is exercised."""
+    pins = rnd.choice([1, 2, 3, 5, 8, 9, 17])
+    T = 200 if tier == "quick" else 400
+    dens = rnd.choice([0.1, 0.3, 0.5])
+    stim = []
+    for _ in range(T):
+        st = sum((rnd.random() < dens) << k for k in range(pins))
+        cl = sum((rnd.random() < dens) << k for k in range(pins))
+        stim.append([int(rnd.random() < 0.5), rnd.getrandbits(pins), st, cl])
+    return {"engine": "gpio", "kind": "outreg", "cfg": {"pins": pins, "outreg": 1}, "stim": stim}
+
+
 def gen_case(seed, tier, idx):
     rnd = mkrnd(seed, "gpio", idx)
-    kind = ["txn", "txn", "random", "txn", "ctor", "txn", "random", "sweep"][idx % 8]
-    if kind == "sweep" and rnd.random() < 0.5:
+    kind = ["txn", "txn", "random", "txn", "ctor", "outreg", "random", "sweep"][idx % 8]
+    if kind in ("sweep", "outreg") and rnd.random() < 0.5:
         kind = "txn"
+    if kind == "outreg":
+        return gen_outreg(rnd, tier)
     cfg = gen_cfg(rnd, tier, kind)
     T = rnd.choice([300, 400]) if tier == "quick" else rnd.choice([400, 600])
     if not valid_cfg(cfg) or cfg["aw"] < min_aw(cfg["pins"], cfg["dw"]):
@@ -247,6 +265,8 @@ def gen_case(seed, tier, idx):
 
 def to_model(case):
     c = case["cfg"]
+    if case["kind"] == "outreg":
+        return [1, c["pins"], case["stim"]]
     return [[sx_arg(c["pins"]), sx_arg(c["aw"]), sx_arg(c["dw"]), sx_arg(c["stages"])], case["stim"]]
 
 
@@ -264,6 +284,8 @@ def run_impl(case):
     """[-2, 1|2] when the constructor raises ValueError|TypeError, else
     [0, [[start, stop] per register, ascending], rows, names] with rows = [r_data, [o], [oe], [alt]] per cycle."""
     cfg = case["cfg"]
+    if case["kind"] == "outreg":
+        return run_outreg(case)
     try:
         dut = build(cfg)
     except ValueError:
@@ -284,8 +306,22 @@ def run_impl(case):
     return [0, layout, obs, names, [len(dut.bus.addr), len(dut.bus.w_data), len(dut.bus.r_data), len(dut.alt_mode)]]
 
 
+def run_outreg(case):
+    """[1, [[element.r_data, [f.pin[k].data]] per cycle]]"""
+    from amaranth_soc import gpio
+    pins = case["cfg"]["pins"]
+    reg = gpio.Peripheral.Output(pins)
+    fields = [reg.f.pin[k] for k in range(pins)]
+    ins = [reg.element.w_stb, reg.element.w_data] + [f.set for f in fields] + [f.clr for f in fields]
+    outs = [reg.element.r_data] + [f.data for f in fields]
+    stim = [[w, d] + [(st >> k) & 1 for k in range(pins)] + [(cl >> k) & 1 for k in range(pins)]
+            for (w, d, st, cl) in case["stim"]]
+    rows = S.simulate(reg, ins, outs, stim)
+    return [1, [[r[0], r[1:]] for r in rows]]
+
+
 def canon(obs):
-    return obs if obs[0] == -2 else obs[:3]
+    return obs if obs[0] in (-2, 1) else obs[:3]
 
 
 # ----------------------------------------------------------------------------- oracle
@@ -306,6 +342,8 @@ def oracle(case, obs):
     writes (a write that breaks the protocol makes the affected bits unknown until rewritten)."""
     out = []
     cfg = case["cfg"]
+    if case["kind"] == "outreg":
+        return oracle_outreg(case, obs)
     ok_cfg = valid_cfg(cfg)
     if obs[0] == -2:
         # the property quantifies over every pin count / geometry / depth: a sound configuration must be accepted
@@ -456,10 +494,40 @@ def oracle(case, obs):
     return out
 
 
+def oracle_outreg(case, obs):
+    """Output field, element level: set (01) / clear (10) decide and beat a register write arriving in the same
+    cycle; with neither or both (00 / 11) a write, if any, decides; otherwise the bit holds.  Each pin on its own bits."""
+    out = []
+    pins = case["cfg"]["pins"]
+    rows = obs[1]
+    for t, (w, d, st, cl) in enumerate(case["stim"]):
+        r_data, data = rows[t]
+        if t == 0 and any(data):
+            out.append(("C16", 0, f"Output fields {data} out of reset"))
+        if r_data != sum(b << k for k, b in enumerate(data)):
+            out.append(("C16", t, f"Output register reads {r_data:#x} while its fields drive {data}"))
+        if t + 1 < len(rows):
+            nxt = rows[t + 1][1]
+            for k in range(pins):
+                s_, c_ = (st >> k) & 1, (cl >> k) & 1
+                exp = s_ if s_ != c_ else (((d >> k) & 1) if w else data[k])
+                if nxt[k] != exp:
+                    out.append(("C16", t, f"Output field {k}: bit {data[k]}, set={s_} clr={c_} w_stb={w} w_data bit={(d >> k) & 1} "
+                                f"-> {nxt[k]}, expected {exp}"))
+        if len(out) > 12:
+            break
+    return out
+
+
 def stats(case, obs):
     d = {"cycles": len(case["stim"]), "refused": int(obs[0] == -2), "completed_writes_Mode": 0,
          "completed_writes_Output": 0, "completed_writes_SetClr": 0, "first_chunk_reads_Input": 0,
-         "first_chunk_reads_Mode_Output": 0, "multi_chunk_registers": 0, "read_strobes": 0, "write_strobes": 0}
+         "first_chunk_reads_Mode_Output": 0, "multi_chunk_registers": 0, "read_strobes": 0, "write_strobes": 0,
+         "outreg_setclr_with_write": 0}
+    if case["kind"] == "outreg":
+        m = (1 << case["cfg"]["pins"]) - 1
+        d["outreg_setclr_with_write"] = sum(1 for (w, dd, st, cl) in case["stim"] if w and ((st ^ cl) & m))
+        return d
     if obs[0] == -2:
         return d
     layout = obs[1]
@@ -480,6 +548,8 @@ def stats(case, obs):
 
 def nontrivial(case, obs):
     """accepted configuration, >= 2 pins, >= 1 completed Mode write, >= 1 completed SetClr write, >= 1 Input read"""
+    if case["kind"] == "outreg":
+        return case["cfg"]["pins"] >= 2 and stats(case, obs)["outreg_setclr_with_write"] >= 1
     if obs[0] == -2 or case["cfg"]["pins"] < 2:
         return False
     st = stats(case, obs)
@@ -488,6 +558,9 @@ def nontrivial(case, obs):
 
 def describe(case):
     c = case["cfg"]
+    if case["kind"] == "outreg":
+        return {"engine": "gpio", "kind": "outreg", "pins": c["pins"], "cycles": len(case["stim"]),
+                "first_cycles": case["stim"][:3]}
     return {"engine": "gpio", "kind": case["kind"], "pins": c["pins"], "aw": c["aw"], "dw": c["dw"],
             "stages": c["stages"], "cycles": len(case["stim"]), "first_cycles": case["stim"][:3]}
 
